@@ -91,6 +91,8 @@ class RuleSet:
         return ''
 
     def _rule_line(self, pr, r, pre, act):
+        if r.get('chain'):
+            act = '|'
         s = pre + ('^' if r['bol'] else '') + pr.pr(r['head'], 0)
         if r.get('dollar'):
             s += '$'
@@ -101,7 +103,7 @@ class RuleSet:
 
 def gen_ruleset(rng, nrules=None, depth=None, csize=256, p_sc=0.4, p_bol=0.15, p_trail=0.15,
                 p_caseins=0.15, allow_nul=True, allow_nullable=False, union_negated=True,
-                allow_var_trail=True, maxrep=4):
+                allow_var_trail=True, maxrep=4, p_chain=0.0):
     rs = RuleSet()
     rs.csize = csize
     rs.caseins = rng.random() < p_caseins
@@ -141,4 +143,8 @@ def gen_ruleset(rng, nrules=None, depth=None, csize=256, p_sc=0.4, p_bol=0.15, p
                     t = ('chr', g.ch())
                 r['trail'] = t
         rs.rules.append(r)
+    # '|' actions: the rule shares the action of the next rule (never on the last rule)
+    for i in range(len(rs.rules) - 1):
+        if rng.random() < p_chain:
+            rs.rules[i]['chain'] = True
     return rs
